@@ -17,7 +17,8 @@ fn inspection(name: &str, run: &[&str], mats: Vec<ArtifactRule>, prods: Vec<Arti
 
 /// run a verification inside a fresh working directory (inspections run in the cwd);
 /// returns (verdict, marker file created?, inspection link file written?)
-fn run_case(steps_ok: StepFault, insp: Inspection) -> (Result<bool, String>, bool, bool) {
+fn run_case(steps_ok: StepFault, insp: Inspection) -> (Result<bool, String>, bool, bool) { run_case_n(steps_ok, vec![insp]) }
+fn run_case_n(steps_ok: StepFault, insps: Vec<Inspection>) -> (Result<bool, String>, bool, bool) {
     let _g = CWD_LOCK.lock().unwrap();
     let owner = key(1);
     let ka = key(2);
@@ -31,9 +32,9 @@ fn run_case(steps_ok: StepFault, insp: Inspection) -> (Result<bool, String>, boo
     let step_rules = if let StepFault::RuleFails = steps_ok {
         vec![ArtifactRule::Disallow(VirtualTargetPath::new("*".into()).unwrap())]
     } else { allow_all() };
-    let name = insp.name.clone();
+    let name = insps[0].name.clone();
     let expiry = if let StepFault::Expired = steps_ok { -1 } else { 30 };
-    let l = layout(vec![step("a", 1, &[&ka], allow_all(), step_rules)], vec![insp], &[&ka], expiry);
+    let l = layout(vec![step("a", 1, &[&ka], allow_all(), step_rules)], insps, &[&ka], expiry);
     let owners: Vec<&in_toto::crypto::PrivateKey> = if let StepFault::BadOwnerSig = steps_ok { vec![&ka] } else { vec![&owner] };
     let lay = signed_layout(&l, &owners);
     let old = std::env::current_dir().unwrap();
@@ -82,6 +83,14 @@ pub fn run(r: &mut Report) {
            format!("verdict_ok={:?}", res), matches!(res, Ok(false)));
     let (res, _, _) = run_case(StepFault::None, inspection("a", &["false"], allow_all(), allow_all()));
     r.case("nonzero-exit-is-fatal-when-named-like-a-step", json!({"inspection": "a", "step": "a", "run": ["false"]}), "Err", format!("verdict_ok={:?}", res), matches!(res, Ok(false)));
+    // several inspections: EVERY one of them must have exited with 0, also when two of them share a name, in either order
+    for (id, runs, expect) in [("two-inspections-second-fails", vec![("i1", "true"), ("i2", "false")], false), ("two-inspections-first-fails", vec![("i1", "false"), ("i2", "true")], false),
+                               ("same-name-first-fails", vec![("dup", "false"), ("dup", "true")], false), ("same-name-second-fails", vec![("dup", "true"), ("dup", "false")], false),
+                               ("same-name-both-pass", vec![("dup", "true"), ("dup", "true")], true)] {
+        let insps: Vec<Inspection> = runs.iter().map(|(n, c)| inspection(n, &[c], allow_all(), allow_all())).collect();
+        let (res, _, _) = run_case_n(StepFault::None, insps);
+        r.case(id, json!({"inspections": runs}), if expect { "Ok" } else { "Err" }, format!("verdict_ok={:?}", res), res == Ok(expect));
+    }
     let (res, _, _) = run_case(StepFault::None, inspection("insp", &["sh", "-c", "echo x > pre; true"], allow_all(), allow_all()));
     r.case("inspection-allow-all", json!({}), "Ok", format!("verdict_ok={:?}", res), matches!(res, Ok(true)));
 }
